@@ -288,6 +288,7 @@ def check_property(prop, tier, seed):
     glue_used = []
     pins = []
     mutants_report = []
+    seen_fns = set()
     for uname in pc['units']:
         tmpl = os.path.join(ROOT, 'units', uname + '.vrs')
         out = os.path.join(BUILD, '%s_%s.rs' % (uname, prop))
@@ -337,6 +338,11 @@ def check_property(prop, tier, seed):
             undecided.append('unit %s has no function tagged %s' % (uname, prop))
             continue
         for n in names:
+            f_ = next((f for f in unit.funcs if f.outname == n), None)
+            if f_ is not None and (f_.repo_file, f_.sha, n) in seen_fns:
+                continue  # same extracted text already counted in another unit of this property (shared include)
+            if f_ is not None:
+                seen_fns.add((f_.repo_file, f_.sha, n))
             st = res.fn.get(n)
             full = st['full'] if st else None
             nob = 0
